@@ -285,6 +285,32 @@ def kg_read_array(t, i, backend, **kwargs):
     return i, a
 
 
+def _build_dicts(a, backend):
+    if isinstance(a, KGCall) and a.a is copy_lambda:
+        return {k: _as_data(v, backend) for k, v in a.args.items()}
+    if isinstance(a, list):
+        return [_build_dicts(x, backend) for x in a]
+    return a
+
+
+def _as_data(a, backend):
+    a = _build_dicts(a, backend)
+    return backend.kg_asarray(a) if isinstance(a, list) else a
+
+
+def kg_read_data(t, i, backend, **kwargs):
+    """
+    Read a data object, as .r and .rs do.
+
+    Like kg_read_array, but a dictionary is built right away, also inside lists
+    and other dictionaries. kg_read leaves a dictionary as a literal for the
+    evaluator to copy (a KGCall of copy_lambda); data that is read is never
+    evaluated, so .rs(":{[1 2]}") used to return that function call object.
+    """
+    i, a = kg_read(t, i, **kwargs)
+    return i, _as_data(a, backend)
+
+
 def read_cond(klong, t, i=0):
     """
         # A conditional expression has two forms: :[e1;e2;e3] means "if
